@@ -145,6 +145,40 @@ HARNESS(h_c04_cycle) {
     OI(c->is_static());
 }
 
+// C04, link to the mesh: a cell of the given class is built on one tetrahedron, its properties are initialised, then its nodes are moved
+// (as the time integrator or the mesh refiner would) and the per-iteration entry point apply_internal_forces(dt) runs. The volume it
+// stores, the target volume, the pressure and the removal predicate must be those of the mesh as it is now.
+// din: [coords at construction (12), coords now (12), Vt, K, Pmax, g, dt, minvol]  iin: [class, pmax_is_inf]
+HARNESS(h_c04_mesh) {
+    const double* D = io->din;
+    auto ct = std::make_shared<cell_type_parameters>();
+    ct->bulk_modulus_ = D[25];
+    ct->max_pressure_ = io->iin[1] ? std::numeric_limits<double>::infinity() : D[26];
+    ct->min_vol_ = D[29];
+    ct->area_elasticity_modulus_ = 0.; ct->target_isoperimetric_ratio_ = 150.; ct->angle_regularization_factor_ = 0.;
+    ct->avg_division_vol_ = 1e30; ct->std_division_vol_ = 0.; ct->mass_density_ = 1.;
+    face_type_parameters ft; ft.surface_tension_ = 0.; ft.bending_modulus_ = 0.;
+    ct->add_face_type(ft);
+    std::vector<double> pos(D, D + 12);
+    std::vector<unsigned> ids = {0, 2, 1, 0, 1, 3, 0, 3, 2, 1, 2, 3};
+    std::shared_ptr<cell> c;
+    switch (io->iin[0]) {
+        case 0: c = std::make_shared<epithelial_cell>(pos, ids, 0u, ct); break;
+        case 2: c = std::make_shared<lumen_cell>(pos, ids, 0u, ct); break;
+        case 3: c = std::make_shared<nucleus_cell>(pos, ids, 0u, ct); break;
+        default: c = std::make_shared<static_cell>(pos, ids, 0u, ct); break;
+    }
+    c->initialize_cell_properties(false);
+    c->target_volume_ = D[24]; c->growth_rate_ = D[27];
+    for (unsigned k = 0; k < 4; k++) c->node_lst_[k].pos_ = vec3(D[12 + 3 * k], D[13 + 3 * k], D[14 + 3 * k]);
+    c->apply_internal_forces(D[28]);
+    OD(c->get_volume());
+    OD(c->get_target_volume());
+    OD(c->get_pressure());
+    OI(c->is_below_min_vol());
+    OD(c->get_area());
+}
+
 // din: [mu_g, sigma_g, mu_div, sigma_div]  iin: [class, sigma_g_is_zero, sigma_div_is_zero, mu_div_is_inf]
 HARNESS(h_c04_random) {
     const double* D = io->din;
